@@ -16,10 +16,10 @@ MANIFEST = {
              "wildcards implies equal non-whitespace content up to one pair of surrounding quotes under NORMALIZE_REPR), and "
              "monotonicity per leniency switch under explicitly stated guards. The unguarded monotonicity sentence is FALSE of the "
              "unchanged code in four corner classes: each is a kernel-checked witness theorem and a recorded known finding. "
-             "Monotonicity is proved per switch: ELLIPSIS and NORMALIZE_WHITESPACE for all inputs under the single guard NORMALIZE_REPR off "
+             "Monotonicity is proved per switch: NORMALIZE_REPR for ALL inputs and flag settings without any guard (`mono_normalize_repr`: the second, role-swapped norm_repr call can never strip the want's quotes once got matches want); ELLIPSIS with NORMALIZE_REPR off, and with it on under the exact guard `EllipsisNrGuard` (`mono_ellipsis_nr_guarded`, shown weakest possible by `mono_ellipsis_nr_guard_exact`: class K-C05-c otherwise); NORMALIZE_WHITESPACE for all inputs under the single guard NORMALIZE_REPR off "
              "(`mono_normalize_whitespace` rests on `ellipsisMatch_collapse`: an ellipsis match survives whitespace collapsing, via "
              "`splitEllipsis (collapse b) = (splitEllipsis b).map collapse`); IGNORE_WHITESPACE under the additional, necessary guard that deleting "
-             "whitespace does not re-split the want (class K-C05-d otherwise); NORMALIZE_REPR only with ELLIPSIS off (partial)."),
+             "whitespace does not re-split the want (class K-C05-d otherwise)."),
     'note': ("Trusted: Lean kernel, allowed axioms only; hand-written matchers for the six regular expressions (texts pinned from the "
              "source by Pins/Checker.lean; Unicode classes compared with the interpreter on every scalar value); the correspondence "
              "harness (exhaustive token strings x 32 flag settings + mutation-derived random pairs) ties model to checker.py."),
@@ -331,7 +331,10 @@ def classify(ctx, hit):
         # K-C05-a: whitespace is normalised before the quotes are stripped; vanishes with NORMALIZE_REPR off
         if _mono_ok(got, want, n & ~2, 1 << bit):
             return 'K-C05-a'
-    if sw == 'ELLIPSIS' and fb['NORMALIZE_REPR'] and '...' in got:
+    # K-C05-c: the got, read as a pattern, matches the quoted want (second norm_repr call); the dots
+    # may only become adjacent after whitespace deletion ('. . .' under IGNORE_WHITESPACE), so the test
+    # is made on the text without whitespace (exact guard: theorem mono_ellipsis_nr_guard_exact)
+    if sw == 'ELLIPSIS' and fb['NORMALIZE_REPR'] and '...' in ''.join(got.split()):
         if _mono_ok(got, want, n & ~2, 1 << 4):
             return 'K-C05-c'
     if sw == 'ACCEPT_BLANKLINE':
